@@ -479,7 +479,8 @@ def part_views(b):
             if t != exp_t:
                 b.bad("trace_from_strings", "mismatch", "trace parsed from the gapped strings differs",
                       [list(c) for c in exp_t], t if isinstance(t, str) else [list(c) for c in t])
-            elif M.trace_problem(t, b.n) is not None:
+            elif M.trace_problem(t, b.n) is not None and M.trace_problem(b.trace, b.n) is None:
+                # (a row subset of a wider alignment legitimately keeps columns that are all gaps)
                 b.bad("trace_from_strings", "invalid_" + M.trace_problem(t, b.n), "parsed trace is invalid", None, t)
     # codes
     exp_c = M.code_rows(b.seqs, b.trace, e.code_of)
@@ -888,13 +889,41 @@ def part_fasta(b):
         buf = io.StringIO()
         f.write(buf)
         text = buf.getvalue()
-        if gapchar != "-":
+        kw = {}
+        if gapchar == "mixed":
+            # both gap characters in one file, also within one row
+            cnt = [0]
+
+            def alt(line):
+                out = []
+                for ch in line:
+                    if ch == "-":
+                        cnt[0] += 1
+                        ch = "_" if cnt[0] % 2 else "-"
+                    out.append(ch)
+                return "".join(out)
+            text = "\n".join(line if line.startswith(">") else alt(line) for line in text.split("\n"))
+        elif gapchar == ".~":
+            # two custom gap characters given as additional_gap_chars, mixed with '-'
+            cnt = [0]
+
+            def alt(line):
+                out = []
+                for ch in line:
+                    if ch == "-":
+                        cnt[0] += 1
+                        ch = ".~-"[cnt[0] % 3]
+                    out.append(ch)
+                return "".join(out)
+            text = "\n".join(line if line.startswith(">") else alt(line) for line in text.split("\n"))
+            kw["additional_gap_chars"] = (".", "~")
+        elif gapchar != "-":
             text = "\n".join(line if line.startswith(">") else line.replace("-", gapchar) for line in text.split("\n"))
         g = fasta.FastaFile.read(io.StringIO(text))
         # a single row cannot be read back as an alignment (documented refusal of trace_from_strings)
-        return entries, text, (fasta.get_alignment(g, seq_type=e.cls) if b.n >= 2 else None)
+        return entries, text, (fasta.get_alignment(g, seq_type=e.cls, **kw) if b.n >= 2 else None)
 
-    for gapchar in ("-", "_"):
+    for gapchar in ("-", "_", "mixed", ".~"):
         r = call(go, gapchar)
         if r[0] != "ok":
             b.evs += 1
@@ -911,6 +940,9 @@ def part_fasta(b):
             continue
         parsed = M.fasta_parse(text)
         want = [(h, s.replace("-", gapchar)) for h, s in zip(names, exp_g)]
+        if gapchar in ("mixed", ".~"):
+            parsed = [(h, "".join("-" if ch in "_.~" else ch for ch in s)) for h, s in parsed]
+            want = list(zip(names, exp_g))
         if parsed != want and not unspec:
             b.bad("fasta.write", "text_mismatch", "written FASTA text does not hold the gapped rows", want, parsed)
             continue
@@ -924,8 +956,52 @@ def part_fasta(b):
     b.intact("fasta")
 
 
+def is_contiguous(trace, nrows):
+    for r in range(nrows):
+        idx = [c[r] for c in trace if c[r] != M.GAP]
+        if any(y - x != 1 for x, y in zip(idx, idx[1:])):
+            return False
+    return True
+
+
+def part_result_identity(b):
+    """operations that produce a new alignment must not hand out the operand (or its list of sequences), also when
+    nothing has to be done; after re-binding edits of the result the operand is intact.  Shared ndarray buffers
+    (views) are unspecified."""
+    import biotite.sequence.align as balign
+
+    ctx = b.ctx
+    m, n = len(b.trace), b.n
+    ops = [("getitem_full_slice", lambda a: a[:]), ("getitem_full_2d", lambda a: a[:, :]),
+           ("getitem_all_true_mask", lambda a: a[np.ones(m, dtype=bool)]),
+           ("getitem_all_rows_list", lambda a: a[:, list(range(n))]), ("remove_gaps", balign.remove_gaps)]
+    if not b.undefined_terminal:
+        ops.append(("remove_terminal_gaps", balign.remove_terminal_gaps))
+    for name, fn in ops:
+        r = call(fn, b.aln)
+        b.evs += 1
+        if r[0] != "ok":
+            continue   # judged by the other parts
+        res = r[1]
+        if res is b.aln:
+            b.bad(name, "returns_operand", "the operation returned its operand instead of a new alignment", cls="%drow" % n)
+            continue
+        if res.sequences is b.aln.sequences:
+            b.bad(name, "shares_sequence_list", "result and operand share the list of sequences", cls="%drow" % n)
+            continue
+        ctx.count("result_shares_trace_buffer" if np.shares_memory(res.trace, b.aln.trace) else "result_owns_trace_buffer")
+        # re-binding edits of the result
+        res.sequences.append(b.sobj[0])
+        res.sequences[0] = b.e.seq(b.e.letters("b"))
+        res.trace = np.zeros((1, n), dtype=int)
+        res.score = 12345
+        if b.aln.score is not None:
+            b.bad(name, "score_shared", "editing the result changed the operand's score", cls="%drow" % n)
+        b.intact(name)
+
+
 def run_battery(ctx, e, seqs, trace, tier, struct_level=True, letter_level=True, getitem=True, cigar_letters=True,
-                flavour="int64"):
+                flavour="int64", cigar_struct=True):
     """struct_level: operations whose result does not depend on the letters; letter_level: the others.
     cigar_letters: run the '='/'X' CIGAR options for this letter assignment."""
     b = Bat(ctx, e, seqs, trace, flavour=flavour)
@@ -939,7 +1015,9 @@ def run_battery(ctx, e, seqs, trace, tier, struct_level=True, letter_level=True,
             part_cigar(b, (True,), all_introns=struct_level)
     if struct_level:
         part_terminal(b)
-        part_cigar(b, (False,))
+        part_result_identity(b)
+        if cigar_struct:
+            part_cigar(b, (False,))
         if getitem:
             part_getitem(b, tier)
     b.done()
@@ -1053,12 +1131,17 @@ def run_skip(shard, ctx):
             if idx % parts != part:
                 continue
             ctx.count("skipping_traces")
+            first = True
             for seqs in words:
                 cs = json.dumps({"kind": "conv", "pal": e.pi, "seqs": seqs, "trace": sub})
                 if not ctx.journal(cs):
+                    first = False
                     continue
-                b = run_battery(ctx, e, seqs, sub, ctx.tier, struct_level=False, letter_level=True,
-                                cigar_letters=False)
+                # struct-level parts once per trace: terminal gaps, remove_gaps, result identity, __getitem__;
+                # no CIGAR (a skipped index cannot be expressed)
+                b = run_battery(ctx, e, seqs, sub, ctx.tier, struct_level=first, letter_level=True,
+                                cigar_letters=False, cigar_struct=False)
+                first = False
                 if len(ctx.samples) < 1 and idx % 11 == 5:
                     ctx.sample({"seqs": seqs, "gapped": M.gapped_strings(seqs, sub), "class": b.cls + "+skipping"})
 
@@ -1377,6 +1460,9 @@ def check_msa(ctx, case):
     if isinstance(t, str):
         bad("malformed_trace", "trace is no (columns x %d) integer array: %s" % (n, t), n, t)
         return
+    if aln.sequences is objs:
+        bad("returns_input_list", "the returned alignment holds the caller's list of sequences itself")
+    ctx.count("msa_rows_are_input_objects" if any(a is o for a, o in zip(aln.sequences, objs)) else "msa_rows_are_copies")
     got_seqs = [str(s) for s in aln.sequences]
     if len(got_seqs) != n:
         bad("row_count", "not one row per input", n, len(got_seqs))
@@ -1767,7 +1853,7 @@ def run_many(shard, ctx):
             ctx.count("many_row_alignments")
 
 
-REUSE_CASES = ("fasta_second_alignment", "fasta_refused_then_valid", "msa_twice_same_objects", "msa_refused_then_valid",
+REUSE_CASES = ("fasta_other_size", "alignment_rebound_trace", "msa_other_count", "fasta_second_alignment", "fasta_refused_then_valid", "msa_twice_same_objects", "msa_refused_then_valid",
                "cigar_refused_then_valid", "matrix_unchanged")
 
 
@@ -1794,7 +1880,62 @@ def check_reuse(ctx, e, which):
         f.write(buf)
         return list(f.items()), buf.getvalue(), f
 
-    if which == "fasta_second_alignment":
+    if which == "fasta_other_size":
+        # the same file takes alignments of 3, 100 (several lines per row), 3, 161, 9 columns, serialised and read
+        # back after every step: always equal to a fresh file
+        def mk(total):
+            t = tuple((i, i) if i % 5 else (i, -1) for i in range(total))
+            ref = e.letters("".join("ab"[(i * i + i // 3) % 2] for i in range(total)))
+            seg = e.letters("".join("ba"[(i + i // 2) % 2] for i in range(sum(1 for c in t if c[1] != -1))))
+            t2, q = [], 0
+            for a_, b_ in t:
+                if b_ == -1:
+                    t2.append((a_, -1))
+                else:
+                    t2.append((a_, q)); q += 1
+            return balign.Alignment([e.seq(ref), e.seq(seg)], np.array(t2)), tuple(t2), [ref, seg]
+        f = fasta.FastaFile()
+        for total in (3, 100, 3, 161, 9, 80, 81):
+            aln, t, sq = mk(total)
+            fresh = fasta_entries(aln)
+            again = fasta_entries(aln, f)
+            if again[:2] != fresh[:2]:
+                bad("differs_from_fresh", "file re-used for %d columns differs from a fresh file" % total, fresh[1][:200], again[1][:200])
+                break
+            back = call(lambda: fasta.get_alignment(fasta.FastaFile.read(io.StringIO(again[1])), seq_type=e.cls))
+            back2 = call(fasta.get_alignment, f, seq_type=e.cls)
+            for bk in (back, back2):
+                if bk[0] != "ok" or obs_trace(bk[1].trace, 2) != t or [str(x) for x in bk[1].sequences] != sq:
+                    bad("read_back", "alignment of %d columns read from the re-used file differs" % total, None, repr(bk)[:200])
+    elif which == "alignment_rebound_trace":
+        # 'all attributes are publicly accessible': the same Alignment object gets traces of other lengths
+        sq = [e.letters("abab"), e.letters("bab")]
+        aln = balign.Alignment([e.seq(x) for x in sq], np.zeros((0, 2), dtype=int))
+        for t in (((0, 0), (1, 1)), ((0, -1), (1, 0), (2, 1), (3, 2)), ((1, 0),), ((0, 0), (1, -1), (2, 1), (-1, 2)), ()):
+            str(aln); len(aln); aln.get_gapped_sequences(); balign.get_codes(aln)
+            aln.trace = np.array(t, dtype=int).reshape(len(t), 2)
+            got = (aln.get_gapped_sequences(), balign.get_codes(aln).tolist(), len(aln),
+                   balign.remove_gaps(aln).trace.tolist(), balign.get_symbols(aln))
+            want = (M.gapped_strings(sq, t), M.code_rows(sq, t, e.code_of), len(t),
+                    [list(c) for c in M.without_gap_columns(t)], M.symbol_rows(sq, t))
+            if got != want:
+                bad("stale_after_rebinding", "alignment with a re-bound trace of %d columns differs from the model" % len(t), want, got)
+                break
+    elif which == "msa_other_count":
+        pool = [e.fresh(x) for x in (s1, s2, s3, s2, s1)]
+        for idxs in ((0, 1, 2), (0, 1, 2, 3, 4), (1, 2), (3, 0, 4, 2), (0, 1, 2)):
+            objs = [pool[i] for i in idxs]
+            texts = [str(o) for o in objs]
+            got = balign.align_multiple(objs, e.mmat, gap_penalty=-2)
+            ref = balign.align_multiple([e.fresh(x) for x in texts], e.mmat, gap_penalty=-2)
+            if (got[0].get_gapped_sequences(), got[1].tolist()) != (ref[0].get_gapped_sequences(), ref[1].tolist()):
+                bad("differs_from_fresh", "align_multiple on re-used objects (%d sequences) differs from fresh objects" % len(idxs),
+                    ref[0].get_gapped_sequences(), got[0].get_gapped_sequences())
+                break
+            if [str(o) for o in pool] != [s1, s2, s3, s2, s1]:
+                bad("inputs_mutated", "pooled input sequences changed")
+                break
+    elif which == "fasta_second_alignment":
         fresh = fasta_entries(a2)
         _, _, f = fasta_entries(a1)
         again = fasta_entries(a2, f)
@@ -1958,6 +2099,202 @@ def run_msa_alpha(shard, ctx):
                     check_msa_alpha(ctx, case)
 
 
+
+# ---------------------------------------------------------------------------
+# second audit: derived inputs, value-dependent branches, content of another size
+# ---------------------------------------------------------------------------
+def battery_on_object(ctx, e, aln, seqs, trace, origin):
+    """the alignment OBJECT a library operation handed out goes through the other operations, compared with the
+    model of its (seqs, trace)"""
+    n = len(seqs)
+    b = Bat(ctx, e, seqs, trace)
+    b.aln = aln
+    b.case = dict(b.case, derived_from=origin)
+    t = obs_trace(aln.trace, n)
+    if t != b.trace or [e.text(x) for x in aln.sequences] != list(b.seqs):
+        b.bad("derived_" + origin.split(":")[0], "differs_from_model", "the derived alignment is not the model's", [list(b.seqs), b.trace],
+              [[e.text(x) for x in aln.sequences], t])
+        return
+    part_views(b)
+    part_terminal(b)
+    part_result_identity(b)
+    part_identity(b)
+    part_score(b)
+    part_fasta(b)
+    if is_contiguous(b.trace, n):
+        part_cigar(b, (True, False), all_introns=False)
+    b.done()
+    ctx.count("derived_objects")
+
+
+DERIVED_SLICES = (slice(None), slice(1, None), slice(None, -1), slice(None, None, 2), slice(1, None, 2), slice(1, -1))
+
+
+def run_derived(shard, ctx):
+    """op2(op1(x)): every alignment that column/row selection, gap removal, the CIGAR reader, the FASTA reader and
+    align_multiple return is itself put through the conversion battery"""
+    import biotite.sequence.align as balign
+    from biotite.sequence.io import fasta
+
+    e = env(shard["pal"])
+    what = shard["what"]
+    if what == "index":
+        lens = tuple(shard["lens"])
+        n = len(lens)
+        words = [w for k, w in enumerate(letter_words(lens)) if k in (1, len(list(letter_words(lens))) - 2)] or list(letter_words(lens))[:1]
+        for _ranges, t in structures(lens, full_only=shard.get("full_only", False)):
+            m = len(t)
+            for ws in words:
+                seqs = [e.letters(w) for w in ws]
+                if not ctx.journal(json.dumps({"kind": "conv", "pal": e.pi, "seqs": seqs, "trace": t, "derived": what})):
+                    continue
+                src = balign.Alignment([e.seq(x) for x in seqs], np.array(t, dtype=np.int64).reshape(m, n))
+                producers = []
+                for bits in itertools.product([False, True], repeat=m):
+                    if any(bits) and not all(bits):
+                        pos = [i for i, x in enumerate(bits) if x]
+                        producers.append(("mask:%s" % "".join("01"[x] for x in bits), np.array(bits), pos, None))
+                for sl in DERIVED_SLICES:
+                    producers.append(("slice:%r" % (sl,), sl, list(range(m))[sl], None))
+                rowsels = [list(range(n - 1, -1, -1)), slice(None, None, -1)]
+                if n == 3:
+                    rowsels += [[0, 2], [2, 0], slice(1, None), np.array([True, False, True])]
+                for rs in rowsels:
+                    rpos = [int(x) for x in np.arange(n)[rs]]
+                    producers.append(("rows:%r" % (rs,), (slice(None), rs), list(range(m)), rpos))
+                for name, index, cpos, rpos in producers:
+                    d = src[index]
+                    rows = rpos if rpos is not None else list(range(n))
+                    battery_on_object(ctx, e, d, [seqs[r] for r in rows], M.index_trace(t, n, cpos, rows), name)
+                d = balign.remove_gaps(src)
+                battery_on_object(ctx, e, d, seqs, M.without_gap_columns(t), "remove_gaps")
+                tr = M.terminal_range(t, n)
+                if tr is not None and tr[1] > tr[0]:
+                    battery_on_object(ctx, e, balign.remove_terminal_gaps(src), seqs, t[tr[0]: tr[1]], "remove_terminal_gaps")
+                # FASTA reader result (sequences = covered parts, re-based trace)
+                if all(M.covered(seqs, t)) and e.p["type"] != "gen":
+                    f = fasta.FastaFile()
+                    fasta.set_alignment(f, src, ["s%d" % i for i in range(n)])
+                    buf = io.StringIO()
+                    f.write(buf)
+                    d = fasta.get_alignment(fasta.FastaFile.read(io.StringIO(buf.getvalue())), seq_type=e.cls)
+                    battery_on_object(ctx, e, d, M.covered(seqs, t), M.rebased(t, n), "fasta_reader")
+    elif what == "cigar":
+        part, parts = shard["part"], shard["parts"]
+        for idx, w in enumerate(cigar_words(shard["max_ops"])):
+            if idx % parts != part or any(k == 11 for _, k in w):
+                continue
+            for position in (0, 2):
+                cols, ref_end, seg_len = M.cigar_interpret(list(w), position)
+                if not cols:
+                    continue
+                ref = e.letters("".join("ab"[(i * i + i // 3) % 2] for i in range(ref_end + 1)))
+                seg = e.letters("".join("ba"[(i + i // 2) % 2] for i in range(seg_len)))
+                text = "".join("%d%s" % (k, o) for o, k in w)
+                if not ctx.journal(json.dumps({"kind": "derived_cigar", "pal": e.pi, "cigar": text, "position": position})):
+                    continue
+                d = balign.read_alignment_from_cigar(text, position, e.seq(ref), e.seq(seg))
+                battery_on_object(ctx, e, d, [ref, seg], cols, "cigar_reader:%s@%d" % (text, position))
+    elif what == "msa":
+        words6 = [w for w in SEQ_WORDS if len(w) <= 2]
+        for n in (2, 3):
+            for k, tup in enumerate(itertools.product(words6, repeat=n)):
+                seqs = [e.letters(w) for w in tup]
+                case = {"kind": "derived_msa", "pal": e.pi, "words": list(tup)}
+                if not ctx.journal(json.dumps(case)):
+                    continue
+                r = call(balign.align_multiple, [e.seq(x) for x in seqs], e.mmat, gap_penalty=(-2 if k % 2 else (-5, -1)))
+                if r[0] != "ok":
+                    continue   # judged by the msa family
+                t = obs_trace(r[1][0].trace, n)
+                if isinstance(t, str) or M.trace_problem(t, n) is not None:
+                    continue
+                battery_on_object(ctx, e, r[1][0], seqs, t, "align_multiple")
+    else:
+        raise ValueError(shard)
+
+
+CIGAR_TABLE = (("M", 0), ("I", 1), ("D", 2), ("N", 3), ("S", 4), ("H", 5), ("P", 6), ("=", 7), ("X", 8), ("B", 9))
+
+
+def run_values(shard, ctx):
+    """every value the anchored code treats by value, with every seed: all ten CIGAR operations of the SAM
+    specification (symbol <-> BAM code table, reader: eight implemented, P and B refused), and every symbol of the
+    nucleotide (ambiguous) and protein alphabets through the letter-dependent conversions"""
+    import biotite.sequence as bseq
+    import biotite.sequence.align as balign
+    from biotite.sequence.io import fasta
+
+    e = env(shard["pal"])
+    for sym, code in CIGAR_TABLE:
+        ctx.ev(1, 1)
+        r1 = call(balign.CigarOp.from_cigar_symbol, sym)
+        r2 = call(lambda: balign.CigarOp(code).to_cigar_symbol())
+        if r1[0] != "ok" or int(r1[1]) != code or r2[0] != "ok" or r2[1] != sym:
+            ctx.violation("CigarOp|symbol_code_table|op_%s" % code, "CIGAR symbol and BAM code do not correspond (SAM spec)",
+                          {"kind": "values", "pal": e.pi}, [sym, code], [repr(r1)[:60], repr(r2)[:60]])
+        if sym in "PB":
+            ctx.count("refused")
+            for arg in ("1M1%s1M" % sym, [(0, 1), (code, 1), (0, 1)]):
+                r = call(balign.read_alignment_from_cigar, arg, 0, e.seq(e.letters("abab")), e.seq(e.letters("ab")))
+                if r[0] == "ok":
+                    ctx.violation("read_alignment_from_cigar|accepts_unimplemented|op_%s" % code,
+                                  "operation documented as not implemented was accepted", {"kind": "values", "pal": e.pi})
+    # every alphabet symbol as a letter
+    for typ, cls in (("nuc", bseq.NucleotideSequence), ("prot", bseq.ProteinSequence)):
+        full = cls("ACGTN").get_alphabet() if typ == "nuc" else cls("A").get_alphabet()
+        code_of = {x: i for i, x in enumerate(full.get_symbols())}
+        partner = "A"
+        for x in full.get_symbols():
+            ctx.ev(1, 1)
+            ctx.count("alphabet_symbols")
+            s0, s1 = x + partner + x, partner + x
+            trace = ((0, -1), (1, 0), (2, 1))
+            case = {"kind": "values", "pal": e.pi, "type": typ, "symbol": x}
+            aln = balign.Alignment([cls(s0), cls(s1)], np.array(trace))
+
+            def bad(site, what, exp=None, obs=None):
+                ctx.violation("%s|wrong_for_symbol|%s_alphabet" % (site, typ), what, case, exp, obs)
+
+            g = call(aln.get_gapped_sequences)
+            if g[0] != "ok" or list(g[1]) != [s0, "-" + s1]:
+                bad("get_gapped_sequences", "gapped strings wrong", [s0, "-" + s1], repr(g)[:100])
+            c = call(balign.get_codes, aln)
+            exp_c = [[code_of[x], code_of[partner], code_of[x]], [-1, code_of[partner], code_of[x]]]
+            if c[0] != "ok" or c[1].tolist() != exp_c:
+                bad("get_codes", "codes wrong", exp_c, repr(c)[:100])
+            sy = call(balign.get_symbols, aln)
+            if sy[0] != "ok" or [list(r) for r in sy[1]] != [[x, partner, x], [None, partner, x]]:
+                bad("get_symbols", "symbols wrong", None, repr(sy)[:100])
+            idn = call(balign.get_sequence_identity, aln, "all")
+            if idn[0] != "ok" or abs(float(idn[1]) - 2 / 3) > 1e-12:
+                bad("get_sequence_identity", "identity wrong", "2/3", repr(idn)[:60])
+            cg = call(balign.write_alignment_to_cigar, aln, distinguish_matches=True, include_terminal_gaps=True)
+            if cg[0] != "ok" or cg[1] != "1D2=":
+                bad("write_alignment_to_cigar", "CIGAR wrong", "1D2=", repr(cg)[:60])
+            cg = call(balign.write_alignment_to_cigar, aln, reference_index=1, segment_index=0, distinguish_matches=True)
+            if cg[0] != "ok" or cg[1] != "1I2=":
+                bad("write_alignment_to_cigar", "CIGAR wrong", "1I2=", repr(cg)[:60])
+
+            def rt(**kw):
+                f = fasta.FastaFile()
+                fasta.set_alignment(f, aln, ["x", "y"])
+                buf = io.StringIO()
+                f.write(buf)
+                return fasta.get_alignment(fasta.FastaFile.read(io.StringIO(buf.getvalue())), **kw)
+            for label, kw in (("typed", {"seq_type": cls}), ("guessed", {})):
+                r = call(rt, **kw)
+                if label == "guessed" and typ == "prot":
+                    # the sequence type is guessed from the letters (documented): only the trace is demanded
+                    ctx.count("unspecified")
+                    if r[0] == "ok" and obs_trace(r[1].trace, 2) != trace:
+                        bad("fasta_round_trip", "trace wrong with guessed sequence type", None, repr(r)[:100])
+                    continue
+                if r[0] != "ok" or obs_trace(r[1].trace, 2) != trace or [str(q) for q in r[1].sequences] != [s0, s1] \
+                        or any(type(q) is not cls for q in r[1].sequences):
+                    bad("fasta_round_trip", "FASTA round trip wrong (%s sequence type)" % label, [s0, s1], repr(r)[:160])
+
+
 # ---------------------------------------------------------------------------
 # misuse
 # ---------------------------------------------------------------------------
@@ -2045,6 +2382,15 @@ def shards(tier, seed):
             parts = 4 if sum(lens) <= 5 else 16
             for k in range(parts):
                 out.append({"kind": "skip", "lens": list(lens), "pal": p, "part": k, "parts": parts})
+    # second audit
+    for p in ([pi] if q else allp):
+        out.append({"kind": "values", "pal": p})
+        for lens in ([(2, 2), (2, 1, 1)] if q else [(2, 2), (3, 2), (2, 1, 1), (2, 2, 1)]):
+            out.append({"kind": "derived", "what": "index", "lens": list(lens), "pal": p})
+        cparts = 2 if q else 8
+        for k in range(cparts):
+            out.append({"kind": "derived", "what": "cigar", "max_ops": 2 if q else 3, "pal": p, "part": k, "parts": cparts})
+        out.append({"kind": "derived", "what": "msa", "pal": p})
     out.append({"kind": "msa_alpha", "dist": False})
     out.append({"kind": "msa_alpha", "dist": True})
     # cigar reader
@@ -2088,7 +2434,7 @@ def shards(tier, seed):
     out.append({"kind": "misuse", "pal": pi})
     # heaviest first
     weight = {"msa": 0, "family": 1, "produced": 2, "cigar": 3, "misuse": 4, "many": 2, "flavour": 2, "msa_alpha": 1,
-              "long": 3, "edge": 3, "reuse": 4, "skip": 2}
+              "long": 3, "edge": 3, "reuse": 4, "skip": 2, "derived": 2, "values": 4}
     out.sort(key=lambda s: weight[s["kind"]])
     return out
 
@@ -2119,6 +2465,10 @@ def run_shard(shard, ctx):
         run_msa_alpha(shard, ctx)
     elif k == "skip":
         run_skip(shard, ctx)
+    elif k == "derived":
+        run_derived(shard, ctx)
+    elif k == "values":
+        run_values(shard, ctx)
     else:
         raise ValueError(shard)
 
@@ -2130,14 +2480,31 @@ def replay(case, ctx):
     e = env(case["pal"])
     if k == "conv" and any(b - a != 1 for r in range(len(case["seqs"])) for a, b in zip(
             *(lambda idx: (idx, idx[1:]))([c[r] for c in case["trace"] if c[r] != M.GAP]))):
-        # index-skipping trace (family 'skip'): letter-level parts only, as in run_skip
-        run_battery(ctx, e, case["seqs"], [tuple(c) for c in case["trace"]], ctx.tier, struct_level=False,
-                    letter_level=True, cigar_letters=False)
+        # index-skipping trace (families 'skip', 'derived'): no CIGAR, as in run_skip
+        run_battery(ctx, e, case["seqs"], [tuple(c) for c in case["trace"]], ctx.tier, struct_level=True,
+                    letter_level=True, cigar_letters=False, cigar_struct=False,
+                    getitem=len(case["trace"]) <= 8 and len(case["seqs"]) <= 3)
     elif k == "conv":
         run_battery(ctx, e, case["seqs"], [tuple(c) for c in case["trace"]], ctx.tier,
                     getitem=len(case["trace"]) <= 8 and len(case["seqs"]) <= 3, flavour=case.get("flavour", "int64"))
     elif k == "argflav":
         check_arg_flavours(ctx, e, case["seqs"], [tuple(c) for c in case["trace"]])
+    elif k == "values":
+        run_values({"pal": case["pal"]}, ctx)
+    elif k == "derived_cigar":
+        import biotite.sequence.align as balign
+        ops = M.cigar_parse(case["cigar"])
+        cols, ref_end, seg_len = M.cigar_interpret(ops, case["position"])
+        ref = e.letters("".join("ab"[(i * i + i // 3) % 2] for i in range(ref_end + 1)))
+        seg = e.letters("".join("ba"[(i + i // 2) % 2] for i in range(seg_len)))
+        battery_on_object(ctx, e, balign.read_alignment_from_cigar(case["cigar"], case["position"], e.seq(ref), e.seq(seg)),
+                          [ref, seg], cols, "cigar_reader")
+    elif k == "derived_msa":
+        import biotite.sequence.align as balign
+        seqs = [e.letters(w) for w in case["words"]]
+        for gap in (-2, (-5, -1)):
+            r = balign.align_multiple([e.seq(x) for x in seqs], e.mmat, gap_penalty=gap)
+            battery_on_object(ctx, e, r[0], seqs, obs_trace(r[0].trace, len(seqs)), "align_multiple")
     elif k == "reuse":
         check_reuse(ctx, e, case["which"])
     elif k == "msa_alpha":
